@@ -626,6 +626,73 @@ func c08RacePass(c *ev.Ctx) {
 			n++
 		}
 	}
+	// free-form bodies that are too large for exhaustive exploration but fine for the detector:
+	// more blocks, concurrency 4, reuse cycles, errors in the middle
+	big := inputSpec{6*65536 + 11, "p7"}.build()
+	o4 := wopts{BS: 65536, BSum: true, CSum: true, Conc: 4}
+	frame6, _ := produceFrame(wopts{BS: 65536, BSum: true, CSum: true, Conc: 1}, big, delivery{Kind: "write"})
+	bad := append([]byte(nil), frame6...)
+	if len(bad) > 700 {
+		bad[len(bad)/2] ^= 0x10
+	}
+	lf, _ := smallFrame(false, false, 3, true)
+	bodies := []func(){
+		func() { produceFrame(o4, big, delivery{Kind: "readfrom", Frag: 4}) },
+		func() { produceFrame(o4, big, delivery{Kind: "write", Cuts: []int{1, 65536, 200000}, Flush: 5}) },
+		func() {
+			w := lz4.NewWriter(io.Discard)
+			var mu sync.Mutex
+			total := 0
+			w.Apply(lz4.BlockSizeOption(lz4.Block64Kb), lz4.ConcurrencyOption(4), lz4.BlockChecksumOption(true), lz4.OnBlockDoneOption(func(n int) { mu.Lock(); total += n; mu.Unlock() }))
+			for f := 0; f < 3; f++ {
+				w.Write(big[:100000])
+				w.Flush()
+				w.Write(big[100000:])
+				w.Close()
+				w.Reset(io.Discard)
+			}
+			w.Write(big[:70000]) // abandoned frame
+			w.Reset(io.Discard)
+			w.Write(big[:10])
+			w.Close()
+		},
+		func() { readBack(bytes.NewReader(frame6), readPattern{Sizes: [2]int{7, 70000}, Conc: 4}, 1<<20) },
+		func() { readBack(bytes.NewReader(frame6), readPattern{WriteTo: true, Conc: 4}, 1<<20) },
+		func() { readBack(bytes.NewReader(lf), readPattern{Sizes: [2]int{5, 5}, Conc: 2}, 1<<20) },
+		func() {
+			r := lz4.NewReader(bytes.NewReader(bad))
+			r.Apply(lz4.ConcurrencyOption(4))
+			io.Copy(io.Discard, r)
+			r.Reset(bytes.NewReader(frame6))
+			io.Copy(io.Discard, r)
+			r.Reset(bytes.NewReader(frame6))
+			r.Read(make([]byte, 100)) // abandoned in the middle
+			r.Reset(bytes.NewReader(frame6))
+			r.WriteTo(io.Discard)
+		},
+		func() {
+			s1 := &faultSink{failAt: 5}
+			w := lz4.NewWriter(s1)
+			w.Apply(lz4.BlockSizeOption(lz4.Block64Kb), lz4.ConcurrencyOption(2))
+			w.Write(big)
+			w.Close()
+			w.Reset(io.Discard)
+			w.Write(big[:70000])
+			w.Close()
+		},
+	}
+	for i, b := range bodies {
+		if !c.Mine(int64(i + 3)) {
+			continue
+		}
+		for r := 0; r < runs; r++ {
+			func() {
+				defer func() { recover() }()
+				b()
+			}()
+			n++
+		}
+	}
 	c.Add("aux_race_runs", n)
 }
 
